@@ -834,6 +834,10 @@ def apply(st, op):
         s = st.slots.get(op['slot'])
         if s is None or s.life == 'dropped':
             obs['note'] = 'noop'
+        elif s.kind == 'saved' and s.life == 'closed':
+            # save() returns a plain netCDF4.Dataset; closing *that* twice is
+            # netCDF4-python's own (unguarded) nc_close, not library code
+            obs['note'] = 'noop-raw-handle-already-closed'
         else:
             try:
                 s.obj.close()
@@ -900,7 +904,7 @@ def apply(st, op):
                 raise
             except MemoryError:
                 raise
-            except Exception as e:
+            except (Exception, SystemExit) as e:   # pncdump calls exit()
                 ns = None
                 val = None
                 obs['note'] = 'raised:' + type(e).__name__
@@ -918,7 +922,7 @@ def apply(st, op):
             if o == 'query' and obs['note'] == 'ok' and op['name'] not in ('save',):
                 try:
                     val2 = _do_query(st, s, op)
-                except Exception as e:
+                except (Exception, SystemExit) as e:
                     val2 = ('raised', type(e).__name__)
                 if val2 != val:
                     raise Violation(
